@@ -32,12 +32,12 @@ type Dgram struct {
 }
 
 type PacketConn struct {
-	Name    string
-	In      []Dgram // towards the server
-	Out     []Dgram // written by the server
-	Closed  bool
-	expired bool
-	pending bool
+	Name          string
+	In            []Dgram // towards the server
+	Out           []Dgram // written by the server
+	Closed        bool
+	expired       bool
+	pending       bool
 	Reads, Closes int
 }
 
@@ -45,13 +45,13 @@ func NewPacketConn(name string) *PacketConn { return &PacketConn{Name: name} }
 
 // Inject delivers a datagram to the socket (a harness/client operation).
 func (p *PacketConn) Inject(b []byte, from string) {
-	vsched.Point(p.Name+".inject", nil)
+	vsched.PointO(p.Name+".inject", p, nil)
 	vsched.Release(p)
 	p.In = append(p.In, Dgram{append([]byte(nil), b...), Addr(from)})
 }
 
 func (p *PacketConn) ReadFrom(b []byte) (int, net.Addr, error) {
-	vsched.Point(p.Name+".ReadFrom", func() bool { return len(p.In) > 0 || p.Closed || p.expired })
+	vsched.PointO(p.Name+".ReadFrom", p, func() bool { return len(p.In) > 0 || p.Closed || p.expired })
 	p.Reads++
 	if p.Closed {
 		return 0, nil, net.ErrClosed
@@ -67,7 +67,7 @@ func (p *PacketConn) ReadFrom(b []byte) (int, net.Addr, error) {
 }
 
 func (p *PacketConn) WriteTo(b []byte, a net.Addr) (int, error) {
-	vsched.Point(p.Name+".WriteTo", nil)
+	vsched.PointO(p.Name+".WriteTo", p, nil)
 	if p.Closed {
 		return 0, net.ErrClosed
 	}
@@ -88,7 +88,7 @@ func (p *PacketConn) Recv(addr string) ([]byte, bool) {
 		}
 		return -1
 	}
-	vsched.Point(p.Name+".recv", func() bool { return find() >= 0 || p.Closed })
+	vsched.PointO(p.Name+".recv", p, func() bool { return find() >= 0 || p.Closed })
 	i := find()
 	if i < 0 {
 		return nil, false
@@ -137,15 +137,15 @@ type pipeHalf struct {
 
 // Conn is one end of an in-memory stream.
 type Conn struct {
-	Name    string
-	rd, wr  *pipeHalf
-	peer    *Conn
-	Closed  bool
-	expired bool
-	pending bool
-	MaxRead int // 0 = everything available; else at most this many octets per Read (segmentation)
+	Name          string
+	rd, wr        *pipeHalf
+	peer          *Conn
+	Closed        bool
+	expired       bool
+	pending       bool
+	MaxRead       int // 0 = everything available; else at most this many octets per Read (segmentation)
 	local, remote Addr
-	Closes  int
+	Closes        int
 	lazyHandshake bool
 	handshook     bool
 }
@@ -160,7 +160,7 @@ func Pipe(name string) (*Conn, *Conn) {
 }
 
 func (c *Conn) Read(b []byte) (int, error) {
-	vsched.Point(c.Name+".Read", func() bool { return len(c.rd.buf) > 0 || c.rd.closed || c.Closed || c.expired })
+	vsched.PointO(c.Name+".Read", c.rd, func() bool { return len(c.rd.buf) > 0 || c.rd.closed || c.Closed || c.expired })
 	if c.Closed {
 		return 0, net.ErrClosed
 	}
@@ -184,7 +184,7 @@ func (c *Conn) Read(b []byte) (int, error) {
 }
 
 func (c *Conn) Write(b []byte) (int, error) {
-	vsched.Point(c.Name+".Write", nil)
+	vsched.PointO(c.Name+".Write", c.wr, nil)
 	if c.Closed {
 		return 0, net.ErrClosed
 	}
@@ -241,18 +241,18 @@ func (c *Conn) Unread() int { return len(c.rd.buf) }
 // ------------------------------------------------------------------------------------------ listener
 
 type Listener struct {
-	Name   string
-	queue  []*Conn
-	Closed bool
+	Name             string
+	queue            []*Conn
+	Closed           bool
 	Accepted, Closes int
-	Conns  []*Conn // server ends handed out by Accept
+	Conns            []*Conn // server ends handed out by Accept
 }
 
 func NewListener(name string) *Listener { return &Listener{Name: name} }
 
 // Dial queues a new connection and returns the client end; fails if the listener is closed.
 func (l *Listener) Dial(name string) (*Conn, error) {
-	vsched.Point(l.Name+".dial", nil)
+	vsched.PointO(l.Name+".dial", l, nil)
 	if l.Closed {
 		return nil, net.ErrClosed
 	}
@@ -263,7 +263,7 @@ func (l *Listener) Dial(name string) (*Conn, error) {
 }
 
 func (l *Listener) Accept() (net.Conn, error) {
-	vsched.Point(l.Name+".Accept", func() bool { return len(l.queue) > 0 || l.Closed })
+	vsched.PointO(l.Name+".Accept", l, func() bool { return len(l.queue) > 0 || l.Closed })
 	if l.Closed {
 		return nil, net.ErrClosed
 	}
